@@ -27,12 +27,12 @@ def q(tier, quick, thorough):
 def recipe(c: Check):
     c.build(["Properties/C12.vo", "Corr/C12.vo"], harness=["c12"])
     c.obligations("C12")
-    st = c.run_driver("sessions", q(c.tier, 120, 1000), shards=q(c.tier, 8, 16), timeout=1500)
+    st = c.run_driver("sessions", q(c.tier, 132, 1100), shards=q(c.tier, 8, 16), timeout=1500)
     c.run_driver("runids", q(c.tier, 1500, 10000), coq=False, timeout=600)
     cnt = c.cov.get("coq_counters", {}).get("sessions", {})
     if st and not c.broken:
         # sanity of the check itself: the branches the property names must have been reached
-        for k in ("NRELOGIN", "NGATED", "NBLOCKED", "NEXISTS", "NINUSE"):
+        for k in ("NRELOGIN", "NGATED", "NBLOCKED", "NEXISTS", "NINUSE", "NQUOTA", "NQUOTACASES"):
             if cnt.get(k, 0) <= 0:
                 c.broken.append(dict(kind="coverage", name="driver sessions never reached %s" % k,
                                      detail="counter %s = %s" % (k, cnt.get(k))))
@@ -45,7 +45,9 @@ def recipe(c: Check):
              "(random: fresh login, re-login with an issued or made-up run id, register from a pool of 3 names with fresh / occupied port / "
              "bad type, close own/foreign/absent name, disconnect) and gate-driven schedules (re-login while the old session drains, "
              "two and three simultaneous re-logins, late Del after the new session is stored, two sessions racing for one name, close "
-             "of a foreign name, teardown racing a registration). After every step the run-id table, the name table with owners, the set of "
+             "of a foreign name, teardown racing a registration) and 12 directed cross-session histories (S registers and closes p, T registers p, "
+             "then S repeats the close / disconnects / is replaced; tcp and stcp; maxPortsPerClient 0 and 3; T must keep the name, keep working, "
+             "and U's registration must be refused). Random histories run with maxPortsPerClient 0 or 1..3 (the model carries the quota). After every step the run-id table, the name table with owners, the set of "
              "listening remote ports and the messages delivered to the peers are compared with Model.CtlMgr (Corr.C12.check_case). "
              "distinct = distinct case text; non-trivial = more than one step. runids driver: fresh logins, run id 16 hex and pairwise distinct.",
         assumptions=["util.RandID is an oracle: theorems about a fresh login assume its value is not in the session table; the harness tests 16 hex + pairwise distinct",
